@@ -369,6 +369,8 @@ var c13Honest bool
 
 func c13PickDT(r *rand.Rand, mode int) time.Duration {
 	switch mode {
+	case 7: // one block every five days (73 blocks per reward year)
+		return 5 * 24 * time.Hour
 	case 8: // one block a day (a whole reward year in 365 blocks)
 		return 24 * time.Hour
 	case 9: // an ordinary chain: about 15 s per block
@@ -484,6 +486,17 @@ func c13RunChainS(seed int64, idx int, nblocks int, scenario int) c13Chain {
 	if scenario == 3 {
 		o.Interval, relaunchAt = 5, 10
 	}
+	if scenario == 5 || scenario == 6 {
+		// all signers absent (zero consumption) exactly at the last block of a cycle: in ordinary cycles
+		// (5: 15 s blocks) and in the last cycles of a reward year (6: one block every 5 days, 73 per year)
+		o = c13Opts{Cycle: 5, Est: 75, Window: 86400, Interval: 5, Burnout: "5000000000000000000", Shares: []string{"3650000" + c13E18, "1000000" + c13E18}}
+		if scenario == 6 {
+			o.Est = 5 * 5 * 86400
+			dtMode = 7
+		}
+		ch.Opts = o
+		ro = c13RewardOptions(o)
+	}
 	if scenario == 4 {
 		// a whole SHORT reward year with a non-empty delegation pool: one block a day, cycle 10, a single
 		// year of 3.65M OLT, pool = the validators' power (2000 OLT, one delegator)
@@ -594,6 +607,16 @@ func c13RunChainS(seed int64, idx int, nblocks int, scenario int) c13Chain {
 			ntx = 0
 			for i := range in.Absent {
 				delete(in.Absent, i)
+			}
+		}
+		if scenario == 0 && h%o.Cycle == 0 && r.Intn(3) == 0 {
+			for i := 0; i < nprev; i++ {
+				in.Absent[i] = true // zero consumption at the last block of a cycle
+			}
+		}
+		if (scenario == 5 && (h == 10 || h == 20)) || (scenario == 6 && (h == 30 || h == 60 || h == 65 || h == 70)) {
+			for i := 0; i < nprev; i++ {
+				in.Absent[i] = true
 			}
 		}
 		if relaunched && nprev > 1 && h >= 3 {
@@ -1178,10 +1201,15 @@ func c13Main(args []string) int {
 	rep := c13Report{Hist: map[string]int{}}
 	chains := []c13Chain{}
 	if *directed {
-		for sc := 1; sc <= 4; sc++ {
+		for sc := 1; sc <= 6; sc++ {
 			n := 11
-			if sc == 4 {
+			switch sc {
+			case 4:
 				n = 372
+			case 5:
+				n = 27
+			case 6:
+				n = 80
 			}
 			chains = append(chains, c13RunChainS(*seed, -sc, n, sc))
 		}
